@@ -176,6 +176,7 @@ fn profile_column(name: &str) -> Option<(usize, bool)> {
         "cap" => (3, false),
         "all" => (4, false),
         "fuse" => (5, true),
+        "hfuse" => (5, true),
         _ => return None,
     })
 }
@@ -285,6 +286,7 @@ struct Params {
     prios: Prios,
     hashmode: u32,
     disputed: bool,
+    hfuse: bool,
     /// per-op weight multipliers (--exclude a,b = x0; --boost a:k = xk)
     mult: Vec<(OpK, u32)>,
 }
@@ -1078,7 +1080,7 @@ impl<'a> Gen<'a> {
             let drain_phase = style != 0 && frac >= 0.8;
             let line = self.op(k, drain_phase);
             if self.p.fuse && self.rng.pct(FUSE_PCT) {
-                let _ = write!(out, "fuse {} ", self.rng.below(FUSE_MAX));
+                let _ = write!(out, "{} {} ", if self.p.hfuse { "hfuse" } else { "fuse" }, self.rng.below(if self.p.hfuse { 3 * FUSE_MAX } else { FUSE_MAX }));
             }
             out.push_str(&line);
             out.push('\n');
@@ -1130,7 +1132,8 @@ fn gen_random(args: &[String]) -> Result<(), String> {
     let outp: String = f.get("out", "-".to_string())?;
     f.done()?;
     let mut w = open_out(&outp)?;
-    let p = Params { len, kind, col, fuse, keys, prios, hashmode, disputed, mult };
+    let hfuse = prof == "hfuse";
+    let p = Params { len, kind, col, fuse, keys, prios, hashmode, disputed, hfuse, mult };
     let mut buf = String::new();
     for id in 0..count {
         if id % sn != si {
